@@ -125,10 +125,36 @@ def bool_switches(fn):
             continue
         tt, ff = e
         sym = fn.sym_operand(t["o"])
+        only = _single_reaching_def(fn, t["o"], b)
+        if only is not None:
+            sym = only
         while sym[0] == "un" and sym[1] == "Not":
             sym = sym[2]
             tt, ff = ff, tt
         yield b, sym, tt, ff
+
+
+def _single_reaching_def(fn, operand, b):
+    """a switch on a bool local with several definitions (a named condition: `let c = x && y;`, constants on the failing
+    arms) of which only one can still reach the switch (the constant arms were threaded to their targets by the
+    normalisation) and dominates it: the value switched on is that definition's"""
+    pl = operand.get("mv") or operand.get("cp")
+    if pl is None or pl["pr"] or pl["l"] <= fn.nargs:
+        return None
+    # `_t = copy c; switchInt(move _t)`: look through the copy made in the switch's own block
+    for s_ in reversed(fn.blocks[b]["stmts"]):
+        if s_["k"] == "assign" and not s_["p"]["pr"] and s_["p"]["l"] == pl["l"] and s_["rv"]["k"] == "use":
+            q = s_["rv"]["o"].get("mv") or s_["rv"]["o"].get("cp")
+            if q is not None and not q["pr"] and q["l"] > fn.nargs:
+                pl = q
+    ds = [x for x in fn.defs.get(pl["l"], []) if x[2] != "partial"]
+    if len(ds) < 2 or any(x[2] == "partial" for x in fn.defs.get(pl["l"], [])):
+        return None
+    reaching = [x for x in ds if x[0] == b or b in fn.reachable([x[0]])]
+    if len(reaching) != 1 or not fn.dominates(reaching[0][0], b):
+        return None
+    blk, i, kind, payload = reaching[0]
+    return fn.sym_rvalue(payload) if kind == "assign" else fn.sym_call(payload, blk)
 
 
 def aggregates(fn, blocks=None):
